@@ -1,4 +1,4 @@
-(* Proofs/C02Examples.v -- the refutation witness for "by-variable set to one" on a tensor term's default grid, and
+(* Proofs/C02Examples.v -- the former S7 witness (now a regression example), and
    Examples showing that the hypotheses of the C02 theorems are satisfiable by non-trivial values.                 *)
 From Coq Require Import List ZArith QArith Qreals Reals Lra Lia Bool.
 From PG Require Import Base.Ops Base.Vec Model.BSpline Model.Columns Model.Predict Proofs.VecR Proofs.C16 Proofs.C16Transfer
@@ -6,22 +6,19 @@ From PG Require Import Base.Ops Base.Vec Model.BSpline Model.Columns Model.Predi
 Import ListNotations.
 Open Scope R_scope.
 
-(* te(l(0), l(1), by=2) on three features, two grid points per marginal *)
+(* te(l(0), l(1), by=2) on three features, two grid points per marginal: the former S7 witness.  Since the repair of
+   _flatten_mesh its by-column is one (kept as a regression example) *)
 Definition wit_ms : list (simple R) := [SLinear 0%nat; SLinear 1%nat].
 Definition wit_lin (f : nat) : R * R := (0, 1).
-Theorem tensor_by_column_not_one : exists lin m n ms j g,
-  ~ In j (map simple_feature ms) /\ (j < m)%nat /\ default_gridR lin m n (CTensor ms (Some j)) = Some g /\
-  ~ (forall row, In row g -> nth j row 0 = 1).
+Example former_S7_witness_by_column_is_one :
+  Forall (fun row => nth 2 row 0 = 1) (mesh_gridR wit_lin 3 2 (CTensor wit_ms (Some 2%nat))) /\
+  length (mesh_gridR wit_lin 3 2 (CTensor wit_ms (Some 2%nat))) = 4%nat.
 Proof.
-  exists wit_lin, 3%nat, 2%nat, wit_ms, 2%nat, (mesh_gridR wit_lin 3 2 (CTensor wit_ms (Some 2%nat))).
-  assert (Hn : ~ In 2%nat (map simple_feature wit_ms)) by (cbn; intros [H|[H|[]]]; discriminate).
-  split; [exact Hn|]. split; [lia|]. split; [reflexivity|]. intros H.
-  pose proof (mesh_grid_other_columns_zero wit_lin 3 2 (CTensor wit_ms (Some 2%nat)) 2 Hn) as Z.
-  destruct (grid_tensor wit_lin 3 2 wit_ms (Some 2%nat) _ eq_refl) as [L _].
-  { cbn. repeat constructor; cbn; intuition discriminate. }
-  { repeat constructor. }
-  destruct (mesh_gridR wit_lin 3 2 (CTensor wit_ms (Some 2%nat))) as [|row g] eqn:E; [cbn in L; discriminate|].
-  specialize (H row (or_introl eq_refl)). pose proof (Forall_inv Z) as Z0. cbv beta in Z0. lra.
+  split; [apply mesh_grid_by_one; [reflexivity|lia]|].
+  destruct (grid_tensor wit_lin 3 2 wit_ms (Some 2%nat) _ eq_refl) as [L _]; [| | |exact L].
+  - cbn. repeat constructor; cbn; intuition discriminate.
+  - repeat constructor.
+  - intros j E. inversion E; subst j. split; [lia|]. cbn. intros [H|[H|[]]]; discriminate.
 Qed.
 
 (* ---- hypotheses are satisfiable ---- *)
@@ -38,8 +35,11 @@ Example ex_grid_simple_hyp : let s := SSpline 0%nat 0 1 4%nat 1%nat false (Some 
   exists g, default_gridR wit_lin 2 5 (CSimple s) = Some g.
 Proof. cbn. split; [lia|]. split; [intros j H; inversion H; lia|]. eexists. reflexivity. Qed.
 Example ex_grid_tensor_hyp : NoDup (map simple_feature wit_ms) /\ Forall (fun s => (simple_feature s < 3)%nat) wit_ms /\
-  Forall (fun j => (j < 2)%nat) [1; 0]%nat.
-Proof. cbn. repeat split; repeat constructor; cbn; intuition discriminate. Qed.
+  Forall (fun j => (j < 2)%nat) [1; 0]%nat /\ (forall j, Some 2%nat = Some j -> (j < 3)%nat /\ ~ In j (map simple_feature wit_ms)).
+Proof.
+  split; [cbn; repeat constructor; cbn; intuition discriminate|]. split; [repeat constructor|]. split; [repeat constructor|].
+  intros j E. inversion E; subst j. split; [lia|]. cbn. intros [H|[H|[]]]; discriminate.
+Qed.
 Example ex_tensor_by_hyp : nth 1 (map cterm_Q2R ex2_terms) CIntercept =
     CTensor [SSpline 0%nat (Q2R 0) (Q2R 1) 3%nat 1%nat false None; SLinear 1%nat] (Some 2%nat) /\
   ~ In 2%nat (map simple_feature [SSpline 0%nat (Q2R 0) (Q2R 1) 3%nat 1%nat false None; SLinear 1%nat]).
